@@ -143,6 +143,17 @@ def delegates_of(facts, fn):
     return tuple(out)
 
 
+def param_index(facts, fn, name, default):
+    """Position (1-based, as in call arguments: 0 = self) of the parameter called `name` of crate function fn."""
+    b = facts.body(fn)
+    if b is None:
+        return default
+    for i in range(1, b.argc + 1):
+        if b.lname(i) == name:
+            return i - 1
+    return default
+
+
 def insert_wrappers(facts):
     """Store methods that hand their own `&Frame` parameter on to Store::insert_frame (e.g. a `Store::import_frame(&self, &Frame)`
     that looks at what is stored first): for the who-may-insert and keep-ephemeral-out rules the obligation lies with THEIR
